@@ -67,14 +67,24 @@ def _same_args(ctx, got, want):
     return ctx.eq(got, want)
 
 
+NAMES = [b"cat", b"job (batch) 17", b"job (batch) 18", b") ("]
+DENY_EVENTS = ["exit-and-reap", "reuse-live", "stat-unreadable", "stat-readable-again", "is_running()"]
+
+
 @harness("C01.history",
-         quick=[dict(K=K, what=w) for w in MUTATORS for K in ((0, 1, 2, 3) if w == "send_signal" else (2,))],
-         thorough=[dict(K=K, what=w) for w in MUTATORS for K in ((3, 4) if w in ("send_signal", "nice", "cpu_affinity") else (3,))])
-def history(ctx, K, what):
+         quick=[dict(K=K, what=w) for w in MUTATORS for K in ((0, 1, 2, 3) if w == "send_signal" else (2,))]
+         + [dict(K=2, what=w, variant="names") for w in ("terminate", "nice")] + [dict(K=3, what=w, variant="deny") for w in ("kill", "nice", "cpu_affinity")],
+         thorough=[dict(K=K, what=w) for w in MUTATORS for K in ((3, 4) if w in ("send_signal", "nice", "cpu_affinity") else (3,))]
+         + [dict(K=3, what=w, variant="names") for w in MUTATORS] + [dict(K=K, what=w, variant="deny") for w in MUTATORS for K in (3, 4)])
+def history(ctx, K, what, variant=None):
+    """variant "names": every incarnation carries a name from NAMES (parentheses and blanks that imitate the end of the name field)
+    and the identity check must not depend on it; variant "deny": /proc/<pid>/stat may turn unreadable (EACCES) and readable again
+    between calls, and may be unreadable when the object is created (hidepid, dropped privileges)"""
     k = simk.Kernel(ctx)
     simk.system_files(k)
     inc = [ctx.int("start0", 0, 10**7)]
-    state = {"listed": True, "zombie": False, "inc": 0}
+    state = {"listed": True, "zombie": False, "inc": 0, "comm": ctx.choice("name0", NAMES) if variant == "names" else b"cat",
+             "denied": variant == "deny" and ctx.flag("stat_unreadable_at_creation")}
     simk.full_process(k, 1, ppid=0, comm="init")
     simk.full_process(k, P)
     simk.full_process(k, Q, comm="bystander")
@@ -82,11 +92,13 @@ def history(ctx, K, what):
     def stat_file():
         if not state["listed"]:
             raise simk.oserr(errno.ENOENT, f"/proc/{P}/stat")
-        return simk.stat_record(k, P, b"cat", b"Z" if state["zombie"] else b"S", {4: 1, 22: inc[state["inc"]]})
+        if state["denied"]:
+            raise simk.oserr(errno.EACCES, f"/proc/{P}/stat")
+        return simk.stat_record(k, P, state["comm"], b"Z" if state["zombie"] else b"S", {4: 1, 22: inc[state["inc"]]})
 
     k.files[f"/proc/{P}/stat"] = stat_file
     k.dirs["/proc"] = ["1", str(P), str(Q)]
-    log = []
+    log = ["stat unreadable at creation"] if state["denied"] else []
 
     def set_listed(v):
         state["listed"] = v
@@ -101,9 +113,13 @@ def history(ctx, K, what):
             stack.enter_context(p.oneshot())
             log.append("with p.oneshot():")
         for i in range(K):
-            ev = ctx.choice(f"ev{i}", EVENTS)
+            ev = ctx.choice(f"ev{i}", DENY_EVENTS if variant == "deny" else EVENTS)
             log.append(ev)
-            if ev == "exit-to-zombie":
+            if ev == "stat-unreadable":
+                state["denied"] = True
+            elif ev == "stat-readable-again":
+                state["denied"] = False
+            elif ev == "exit-to-zombie":
                 if state["listed"]:
                     state["zombie"] = True
             elif ev == "reap":
@@ -119,6 +135,8 @@ def history(ctx, K, what):
                     ctx.assume(ctx.neg(ctx.eq(n, old)))
                 inc.append(n)
                 state.update(inc=len(inc) - 1, zombie=(ev == "reuse-zombie"))
+                if variant == "names":
+                    state["comm"] = ctx.choice(f"name{len(inc) - 1}", NAMES)
                 set_listed(True)
             elif ev == "is_running()":
                 p.is_running()
@@ -142,13 +160,19 @@ def history(ctx, K, what):
     info = f"history={log} mutator={what} exc={exc!r} deliveries={[(d[0], d[1]) for d in deliveries]}"
     ctx.prove(all(d[1] == P for d in deliveries) and all(a[0] > 0 for a in k.kill_attempts), "never-pid<=0-never-bystander", detail=info)
     if recycled:
-        ctx.prove(isinstance(exc, psutil.NoSuchProcess) and exc.pid == P and not deliveries and not k.kill_attempts, "recycled-raises-NoSuchProcess-nothing-delivered", detail=info)
+        # known finding C01-identity-never-readable: an object built while /proc/<pid>/stat was unreadable has the identity
+        # (pid, None); if the stat record is unreadable again when the re-use check runs, the new owner's identity is (pid, None)
+        # too and the recycled PID passes for the original.  Everything else must hold.
+        blind = variant == "deny" and "stat unreadable at creation" in log and state["denied"]
+        ctx.prove(isinstance(exc, psutil.NoSuchProcess) and exc.pid == P and not deliveries and not k.kill_attempts,
+                  "recycled-raises-NoSuchProcess-nothing-delivered" + ("[identity-unreadable-at-creation-and-at-the-call]" if blind else ""), detail=info)
     elif not state["listed"]:
         ctx.prove(isinstance(exc, (psutil.NoSuchProcess, ValueError)) and not deliveries, "gone-raises-NoSuchProcess", detail=info)
     else:
         assert owner_is_original
         ok = [len(deliveries) <= 1]
-        if must_deliver:
+        unverifiable = variant == "deny" and (state["denied"] or "stat unreadable at creation" in log or "stat-unreadable" in log)
+        if must_deliver and not unverifiable:
             ok.append(exc is None and len(deliveries) == 1)
         if deliveries and expected is not None:
             kind, args = expected[0]
@@ -156,7 +180,8 @@ def history(ctx, K, what):
         if exc is not None:
             # invalid arguments may be refused (ValueError, or the kernel's EINVAL): what matters here is that the
             # live original process is never reported as gone
-            ok.append(not isinstance(exc, psutil.NoSuchProcess))
+            # (when the identity could not be read at some point the statement does not require the call to go through)
+            ok.append(unverifiable or not isinstance(exc, psutil.NoSuchProcess))
         ctx.prove(ctx.all(ok), "delivered-exactly-to-own-pid-with-exact-args", detail=info)
 
 
